@@ -100,6 +100,14 @@ def check_inventory(v, sy):
                 v.tie_failure("panic_map.json cites lemma %r (site %s) which is not in coq/Proofs/C07" % (ent.get("lemma"), key))
         if ent["class"] in ("argument", "out_of_scope") and len(ent.get("why", "")) < 20:
             v.tie_failure("panic_map.json: site %s has no written argument" % key)
+        for (rel, pattern) in ent.get("requires_text", []):
+            # the written argument leans on a fact of the source text: verify it on the current tree
+            try:
+                src = open(os.path.join(vplib.REPO, rel), encoding="utf-8").read()
+            except OSError:
+                src = ""
+            if not re.search(pattern, src):
+                v.tie_failure("panic_map.json: the argument for %s needs %r in %s, which is no longer there" % (key, pattern, rel))
         if ent.get("unreferenced"):
             # the argument says nothing calls this function: verify it
             name = ent["unreferenced"]
